@@ -429,3 +429,47 @@ def resolveall_random(rng, count, lattice_frac=0.5):
         mult = rng.choice(["1", "1", "1/2", "0"])
         yield f"RESOLVEALL {pstr(P)} mult={mult} var={rng.choice([0, 0, 1])} SEG={codec.show_segs(segs)}"
         made += 1
+
+
+# ------------------------------------------------------------------ indels
+def cluster_random(rng, count, sort=True):
+    for _ in range(count):
+        n = rng.randrange(0, 12)
+        blur = rng.choice([30000, 30000, 1000, 0])
+        calls = []
+        x = rng.randrange(0, 50000)
+        for i in range(n):
+            chrom = rng.choice([1, 1, 2, 3])
+            x = rng.choice([x + rng.randrange(0, blur + 1), x + rng.randrange(blur, 3 * blur + 10), rng.randrange(0, 200000)])
+            ins = rng.choice([0, 0, 0, 1]) if rng.random() < 0.2 else 0
+            stop = x
+            start = stop - rng.randrange(0, 40000)
+            ln = rng.choice([2500, -2500, 7000, rng.randrange(-90000, 90000)])
+            calls.append((ins, chrom, start, stop, 100 + i, rng.randrange(0, 9999), rng.randrange(0, 9999), ln))
+        if sort:
+            calls.sort(key=lambda c: (c[1], c[3]))
+        yield f"CLUSTER blur={blur} CALLS=" + ";".join(":".join(str(v) for v in c) for c in calls)
+
+
+def cluster_exhaustive(tier):
+    import itertools
+    m = 4 if tier == "quick" else 5
+    opts = [(0, 1, 0, 10), (0, 1, 5, 12), (0, 2, 0, 11), (0, 1, 20, 40), (1, 1, 0, 10)]
+    for n in range(0, m + 1):
+        for combo in itertools.product(range(len(opts)), repeat=n):
+            calls = [opts[c] + (100 + i, 1, 2, 3000 + i) for i, c in enumerate(combo)]
+            calls.sort(key=lambda c: (c[1], c[3]))
+            yield "CLUSTER blur=5 CALLS=" + ";".join(":".join(str(v) for v in c) for c in calls)
+
+
+def call_random(rng, count):
+    for _ in range(count):
+        lo = rng.choice([2000, 100])
+        rs = rng.randrange(0, 10 ** 6)
+        re_ = rs + rng.choice([rng.randrange(0, 200000), rng.randrange(0, 30000)])
+        qs = rng.randrange(0, 10 ** 6)
+        d = rng.choice([0, lo, -lo, lo + 1, -lo - 1, 100000, -100000, 99999, rng.randrange(-120000, 120000)])
+        qe = qs + max(0, (re_ - rs) - d)
+        if rng.random() < 0.2:
+            qs, qe = qe, qs
+        yield f"CALL lo={lo} chrom={rng.randrange(1, 24)} qid={rng.randrange(1, 999)} rs={rs} re={re_} qs={qs} qe={qe}"
